@@ -272,8 +272,11 @@ BetUnpack(blocks, v) ==
 \* stored sizes are below total + tables, file sizes below the largest member)
 BetEntryWidth(blocks) == LET w == BetWidths(blocks) IN w.pos + w.fsize + w.csize + w.flag
 BetEntryWidthBound(maxlen, total) == 2 * (BitsNeeded(maxlen) + 1) + BitsNeeded(total) + 1 + 3
-\* named deviation (F-C01-g): create_bet_table assembled the entry in a u64 (`x << bit_index`), which overflows -- a panic
-\* in debug builds, dropped bits in release builds -- as soon as the entry is wider than 64 bits
+\* As coded since b2fa63f the four fields are written one by one at their bit positions, so the entry width is not
+\* limited.  Kept as a deviation that the traces must refute (F-C01-g): before that, create_bet_table assembled the entry
+\* in a u64 (`x << bit_index`), which overflows -- a panic in debug builds, dropped bits in release builds -- as soon as
+\* the entry is wider than 64 bits.  A V3/V4 build that panics in that region is reported under this name, and the
+\* finding being "fixed" makes it a violation.
 DevBetEntryOver64(blocks) == BetEntryWidth(blocks) > 64
 BetEntryExact(blocks, j) ==
   BetUnpack(blocks, BetPack(blocks, j)) =
